@@ -1457,6 +1457,70 @@ def failed_marker_not_cleared_at_start(ctx, rid):
 # rules that are necessary conditions of several properties are evaluated once, in the table they were written
 # for, and reported under every property they matter to
 
+# ------------------------------------------------------------------------------------------------
+# R4.11 / R10.13 (F-AD)  the temp output may be a directory: whatever removes it must cope with one
+
+_DIR_REMOVER = re.compile(r"std::fs::remove_dir_all|std::fs::remove_dir|nix::unistd::(rmdir|unlinkat)")
+
+
+def _reaches_dir_remover(prog, body, ba, i, depth=3):
+    """Does the removal at call site i also remove a directory? Either the callee (followed through local wrappers,
+    bounded depth) contains a directory-removing primitive, or the calling body itself goes on from site i to such
+    a primitive (the wrapper written out in place)."""
+    def deep(key, d, seen):
+        cb = prog.bodies.get(key)
+        if cb is None or key in seen:
+            return False
+        seen.add(key)
+        cba = BA.of(cb)
+        for j in cba.all_calls():
+            ps = callee_paths(cb.blocks[j]["term"])
+            if any(_DIR_REMOVER.fullmatch(x) for x in ps):
+                return True
+            if d > 0 and any(deep(x, d - 1, seen) for x in ps if x in prog.bodies):
+                return True
+        return False
+    t = body.blocks[i]["term"]
+    ps = callee_paths(t)
+    if any(_DIR_REMOVER.fullmatch(x) for x in ps) or any(deep(x, depth, set()) for x in ps):
+        return True
+    later = [j for j in ba.calls(_DIR_REMOVER) if ba.path([i], [j], incl=True) is not None]
+    return bool(later)
+
+
+def tmp_removal_copes_with_directory(ctx, rid):
+    ctx.rule(rid, "a .do script may make a directory of its $3 (the success path renames it into place like a file), so both removals of the temp output - the stale one before the fork and the one after a failed build - must be able to remove a directory: unlink(2) alone answers EISDIR, the failure is not recorded and every later build of the target stops at the stale directory")
+    prog = ctx.prog
+    R = anchors.record_new_state(prog)
+    SS = anchors.start_self(prog)
+    rba, sba = BA.of(R), BA.of(SS)
+    n = 0
+    # (a) the stale-output removal that dominates the fork
+    forks = sba.calls(anchors.FORK_START)
+    pre = [u for u in sba.calls_deep(r"helpers::unlink|nix::unistd::unlink|std::fs::remove_file", prog) if forks and any(sba.dominates(u, f) for f in forks)]
+    for u in pre:
+        n += 1
+        ok = _reaches_dir_remover(prog, SS, sba, u)
+        ctx.ob(rid, "%s|stale-output-removal|directory-handled" % SS.key, ok, where=ctx.where(SS, u),
+               detail="the removal before the fork also removes a directory" if ok else
+               "the stale temp output is removed with unlink only: a directory left behind by a killed build makes every later build of the target fail (EISDIR)")
+    # (b) the removal on the failure side of the final status test
+    fails = rba.calls(r"state::File::set_failed")
+    eqs = common.cmp_const_switches(R, 0)
+    final = [(sw, ne_t) for (sw, ne_t, eq_t, x) in eqs if fails and rba.edge_dominates((sw, ne_t), fails[0])]
+    if len(final) != 1:
+        raise AnchorError("final status test of %s not found" % R.key)
+    sw, ne_t = final[0]
+    post = [u for u in rba.calls_deep(r"helpers::unlink|nix::unistd::unlink|std::fs::remove_file", prog) if rba.edge_dominates((sw, ne_t), u)]
+    for u in post:
+        n += 1
+        ok = _reaches_dir_remover(prog, R, rba, u)
+        ctx.ob(rid, "%s|failed-output-removal|directory-handled" % R.key, ok, where=ctx.where(R, u),
+               detail="the removal after a failed build also removes a directory" if ok else
+               "the temp output of a failed build is removed with unlink only: when the script made a directory of $3 redo aborts (EISDIR) before the failure is recorded and leaves the directory behind")
+    ctx.floor(rid, "temp-output removal sites examined", n, 2)
+
+
 _BORROW_CACHE = {}
 
 
@@ -1510,7 +1574,8 @@ TABLE = {
             ("R5.14", borrow("C13", "R13.3", r"argv\[0\.\.2\]", "scripts run under `sh -e`: a failing redo-ifchange inside a .do stops the script and fails the target")),
             ("R5.15", failed_marker_not_cleared_at_start)],
     "C04": [("R4.6", output_probed_with_lstat), ("R4.7", direct_modification_is_inequality), ("R4.8", stdout_amount_from_fstat),
-            ("R4.9", borrow("C13", "R13.3", r"^[^|]*\|\$3=", "two targets that differ only in the matched extension must not share one temp output file: the second script's output would replace or destroy the first's"))],
+            ("R4.9", borrow("C13", "R13.3", r"^[^|]*\|\$3=", "two targets that differ only in the matched extension must not share one temp output file: the second script's output would replace or destroy the first's")),
+            ("R4.11", tmp_removal_copes_with_directory)],
     "C11": [("R11.8", direct_modification_is_inequality), ("R11.11", foreign_file_not_recorded_as_ours),
             ("R11.9", borrow("C15", "R15.2", None, "the record consulted for `generated / override` must be the one of the file the kernel will resolve: a spelling cleaned before symlinks are resolved selects another record and a user's file is replaced"))],
     "C06": [("R6.9", verdict_only_under_lock), ("R6.10", lock_file_opened_once),
@@ -1536,7 +1601,7 @@ TABLE = {
             ("R18.12", follower_reads_after_probe), ("R18.13", parse_keeps_text_verbatim), ("R18.14", record_content_never_panics)],
     "C15": [("R15.7", key_never_bypasses_relpath), ("R15.8", relpath_is_componentwise)],
     "C10": [("R10.12", borrow("C04", "R4.4", r"tmp-name|same-tmp", "the stale-output removal before the fork must name the same file the script will be told to write ($3, beside the target): removing another path leaves the half-written output of a killed build in place, to be taken for this build's output")),
-            ("R10.8", rename_inside_result_transaction), ("R10.10", interrupted_creation_is_recoverable), ("R10.11", failed_marker_not_cleared_at_start),
+            ("R10.8", rename_inside_result_transaction), ("R10.13", tmp_removal_copes_with_directory), ("R10.10", interrupted_creation_is_recoverable), ("R10.11", failed_marker_not_cleared_at_start),
             ("R10.9", borrow("C05", "R5.3", None, "a job that dies (non-zero or by signal) has its un-redeclared edges deleted by zap_deps2, so it must be marked failed in the same transaction or it looks clean after the kill"))],
     "C12": [("R12.9", every_modified_dep_is_descended), ("R12.10", only_immediate_exit_becomes_job_result),
             ("R12.11", borrow("C13", "R13.3", r"argv\[0\.\.2\]", "a .do on the cycle must stop at the failing redo-ifchange (`sh -e`), or the entry target exits 0 although the cycle was detected below"))],
